@@ -520,8 +520,11 @@ func (root *Root) replaceArgVars(vars map[string]interface{}, v interface{}, at 
 			}
 		}
 	case Symbol:
-		bt := BaseType(at)
-		if et, _ := bt.(*Enum); et != nil {
+		et, _ := at.(*Enum)
+		if nn, _ := at.(*NonNull); nn != nil {
+			et, _ = nn.Base.(*Enum)
+		}
+		if et != nil {
 			if _, has := et.values.dict[string(tv)]; !has {
 				ea = append(ea, resWarnp(nil, "%s is not a valid enum value in %s", tv, et.N))
 			}
